@@ -87,7 +87,7 @@ def mesh_dict(m):
 
 def build_grid(md, ux):
     if "file" in md:
-        return ux.open_grid(str(sample_path(md["file"])))
+        return ux.open_grid(str(sample_path(md["file"])), **({"use_dual": True} if md.get("use_dual") else {}))
     w = max(len(f) for f in md["faces"])
     t = np.full((len(md["faces"]), w), INT_FILL, dtype=np.int64)
     for i, f in enumerate(md["faces"]):
@@ -345,7 +345,10 @@ def run_call(ctx, ux, g, sizes, ref, call, inp):
         ds = ux.UxDataset({call["name"]: (call["dims"], arr)}, uxgrid=g)
         subject = ds[call["name"]] if via == "dataset-getitem" else ds
     try:
-        res = subject.integrate(quadrature_rule=call["rule"], order=call["order"])
+        if call.get("defaults"):
+            res = subject.integrate()  # no arguments: the default rule ("triangular", 4), see integrate_default_rule_eq_area_default
+        else:
+            res = subject.integrate(quadrature_rule=call["rule"], order=call["order"])
         err = None
     except Exception as e:  # any exception is a rejection
         res, err = None, e
@@ -471,8 +474,29 @@ def judge_history(ctx, case, tag="gen"):
                 return
     ctx.hit("grid:" + coincidence(sizes))
     for i, call in enumerate(case["calls"]):
+        if "op" in call:
+            # grid-state operations between the integrate() calls (public API only)
+            import xarray as xr
+
+            ctx.hit("op:" + call["op"])
+            try:
+                if call["op"] == "read_face_areas":
+                    g.face_areas.values
+                elif call["op"] == "set_face_areas":
+                    # caller-supplied areas (as MPAS sources do with areaCell): NOT the quadrature's areas
+                    g.face_areas = xr.DataArray(np.asarray(call["areas"], dtype=float), dims=["n_face"])
+                elif call["op"] == "move_nodes":
+                    g.node_lon = xr.DataArray(np.asarray(call["lon"], dtype=float), dims=["n_node"])
+                    g.node_lat = xr.DataArray(np.asarray(call["lat"], dtype=float), dims=["n_node"])
+                    # from here on the reference is a FRESH grid built with the moved coordinates
+                    md = dict(md, lon=call["lon"], lat=call["lat"], kind=str(md.get("kind")) + "+moved")
+                    ref = RefAreas(md, ux)
+            except Exception as e:
+                ctx.hit(f"op:{call['op']}-raised-{type(e).__name__}")
+                return
+            continue
         elem = call["dims"][-1]
-        inp = dict(mesh=md, pre=case.get("pre", []), calls=case["calls"][: i + 1], failing_call=i, sizes=sizes)
+        inp = dict(mesh=case["mesh"], pre=case.get("pre", []), calls=case["calls"][: i + 1], failing_call=i, sizes=sizes)
         key = (md.get("kind"), md.get("file"), str(md.get("faces"))[:400], call["rule"], call["order"], tuple(call["dims"]),
                tuple(call["shape"]), call["dtype"], call["name"], str(call["data"][:64]))
         nontrivial = elem != "n_face" or (len(set(call["data"])) > 1 and sizes["n_face"] > 1)
@@ -490,6 +514,8 @@ def judge_history(ctx, case, tag="gen"):
         if len(set(call["data"])) == 1 and call["data"][0] == 1 and elem == "n_face":
             ctx.hit("constant-one")
         n_before = len(ctx.failures)
+        if call.get("defaults"):
+            ctx.hit("integrate()-without-arguments")
         bad = run_call(ctx, ux, g, sizes, ref, call, inp)
         if bad and (i > 0 or case.get("pre")):
             # shrink: does the single call fail on a fresh grid?
@@ -698,8 +724,26 @@ def history_for(ctx, md, sizes, pool, n_face_calls, big=False):
         calls.append(make_call(rng, sizes, "n_face", next_rule(ctx, pool), via="dataset-integrate", rank=rng.choice([1, 2])))
         calls.append(make_call(rng, sizes, "n_node", next_rule(ctx, pool), via="dataset-integrate", rank=0))
     rng.shuffle(calls)
+    # default-rule integrals against the QUADRATURE's areas whatever the grid carries as `face_areas`
+    dflt = ("triangular", 4)
+
+    def default_calls():
+        a = make_call(rng, sizes, "n_face", dflt, max_lead=1, lead_cap=cap)
+        a["defaults"] = True
+        return [a, make_call(rng, sizes, "n_face", dflt, ones=True, rank=0),
+                make_call(rng, sizes, "n_face", rng.choice([r for r in RULES if r != dflt]), max_lead=1, lead_cap=cap)]
+
+    tail = default_calls()  # also covers file sources that store their own areas (MPAS areaCell / areaTriangle)
+    if "faces" in md:
+        # integrate → read face_areas → move the nodes through the public setters → integrate again
+        lat = [0.93 * y + 0.4 for y in md["lat"]]
+        lon = [x + 0.37 for x in md["lon"]]
+        lon = [x - 360.0 if x > 180.0 else x for x in lon]
+        tail += [dict(op="read_face_areas"), dict(op="move_nodes", lon=lon, lat=lat)] + default_calls()
+        # caller-supplied areas set on the grid
+        tail += [dict(op="set_face_areas", areas=[1.5 + 0.25 * (k % 3) for k in range(sizes["n_face"])])] + default_calls()
     pre = ["face_areas"] if rng.random() < 0.5 else []
-    return dict(mesh=md, pre=pre, calls=calls)
+    return dict(mesh=md, pre=pre, calls=calls + tail)
 
 
 def sizes_of(md):
@@ -747,10 +791,15 @@ def run(ctx):
                 "non-face element dim, or non-constant data on >1 faces; NAME × LENGTH product of the last dimension; PROCESS-STATE "
                 "streams: 24 (quick) / 40 (thorough) grids of one family (equal n_face, different geometry; rings, hulls, patches), "
                 "interleaved with grids of another size, built → integrated with one (mostly non-default) rule → released "
-                "(del + gc.collect(), no reference kept) one after another, every fifth kept alive next to its successor")
+                "(del + gc.collect(), no reference kept) one after another, every fifth kept alive next to its successor; every history "
+                "ends with default-rule integrals (integrate() without arguments, explicit triangular/4, another rule) → read "
+                "grid.face_areas → move the nodes through the node_lon/node_lat setters → the same integrals → grid.face_areas = "
+                "<other areas> → the same integrals; MPAS primal and dual sample (stored areaCell/areaTriangle) in every tier")
     ctx.assumptions = [
         "face areas are inputs of the model: they are the floats returned by an independent compute_face_areas(rule, order) call "
-        "on a separately built Grid (their geometric correctness is C05)",
+        "on a separately built Grid (their geometric correctness is C05) — the property's 'areas as computed with the requested rule "
+        "and order': NOT whatever the grid carries as its face_areas variable (MPAS areaCell/areaTriangle, caller-set areas), and "
+        "after node_lon/node_lat were replaced through the setters the reference grid is rebuilt FRESH from the moved coordinates",
         "float tolerance n_face·2^-52·Σ|terms|: Lean theorem close_of_rounded / spec_values_of_rounded — EVERY bracketing of EVERY permutation "
         "of the terms evaluated in the standard model of binary64 arithmetic (relative error ≤ 2^-53 per product and per addition, FMA "
         "included) lies inside it, for n_face ≤ 2^53; assumed, not proved: that np.einsum / np.dot obey the standard model "
@@ -785,9 +834,10 @@ def run(ctx):
             continue
         big = sizes["n_face"] > 150
         judge_history(ctx, history_for(ctx, md, sizes, pool, ctx.n(2, 5), big=big))
-    files = ["quad-hexagon"] if not (ctx.thorough or ctx.escalate) else list(FILES)
+    files = ["quad-hexagon", "mpas-QU-1920km", "mpas-QU-1920km+dual"] if not (ctx.thorough or ctx.escalate) else list(FILES) + ["mpas-QU-1920km+dual"]
     for f in files:
-        md = dict(file=FILES[f], kind=f)
+        md = dict(file=FILES[f.split("+")[0]], kind=f, **({"use_dual": True} if f.endswith("+dual") else {}))
+        f = f.split("+")[0]
         if not sample_path(FILES[f]).exists():
             ctx.hit("skipped:file-missing")
             continue
